@@ -7,7 +7,7 @@
     is outside the model (the property says "up to rounding"). *)
 From Coq Require Import Reals List QArith Qreals.
 From SV Require Import Rot.RotBase Gen.RotFormulas_gen Rot.RotAlgebra Rot.RotAliasProofs Rot.RotEuler Rot.RotEulerProofs
-  Rot.RotDispatch Rot.RotDispatchProofs Rot.RotMixedProofs Rot.RotInplace Rot.RotCopies Rot.RotMethods Rot.RotMethodsProofs Gen.RotDispatch_gen Rot.RotGJ Rot.RotGJProofs Rot.RotGJTotal Rot.RotGJTotalProofs Rot.RotGJExample Rot.RotRoundEuler Rot.RotProperty
+  Rot.RotDispatch Rot.RotDispatchProofs Rot.RotMixedProofs Rot.RotInplace Rot.RotCopies Rot.RotMethods Rot.RotMethodsProofs Gen.RotDispatch_gen Rot.RotGJ Rot.RotGJProofs Rot.RotGJTotal Rot.RotGJTotalProofs Rot.RotGJExample Rot.RotRoundEuler Rot.RotProperty Rot.RotState Rot.RotPivot
   Rot.RotReify Gen.RotReified_gen Rot.RotReifyProofs
   Rot.RotRound Rot.RotRoundProofs Rot.RotRoundFlocq Gen.RotRounded_gen Rot.RotRoundTied.
 Import ListNotations.
@@ -305,6 +305,47 @@ Theorem c04_property : forall atan2 tbl prog census methods,
   methods_ok methods = true ->
   c04_statement atan2 tbl prog census methods.
 Proof. exact c04_whole_property. Qed.
+
+(** ** Round 5: the shape of the pivot searches of inverse() (Gen/RotPivot_gen.v, read by a tolerant reader: which comparison, how
+    the largest value so far and the pivot row start, which test reports "no inverse").  An accepted shape selects a row whose
+    entry is not zero - and largest in absolute value - whenever some candidate entry is not zero; the shape of seeded fault
+    c04_6 (largest value so far seeded with the SIGNED diagonal entry) reports "no inverse" for the column (-1, 0, 0). *)
+Theorem c04_pivot_search_finds_nonzero_pivot : forall s es, pv_shape_ok s = true -> (exists e, In e es /\ e <> 0) ->
+  exists i, pv_search s es = Some i /\ (i < length es)%nat /\ nth i es 0 <> 0 /\ forall e, In e es -> Rabs e <= Rabs (nth i es 0).
+Proof. exact pv_shape_ok_finds_nonzero_pivot. Qed.
+Theorem c04_pivot_signed_seed_refuted :
+  pv_shape_ok signed_seed_shape = false /\ pv_search signed_seed_shape [-1; 0; 0] = None /\ In (-1) [-1; 0; 0] /\ -1 <> 0.
+Proof. exact signed_seed_refuted. Qed.
+
+(** ** Round 5: histories of calls.  A census of the objects of math.py that outlive a call (module-level and class-level
+    mutable objects; who reads them, who updates them; caching decorators, mutable defaults, global declarations, reflective
+    access, foreign imports), regenerated on every run (Gen/RotState_gen.v), accepted by [state_ok]: every call of a history
+    returns what it returns as the first call of a new process.  [footprint] (the census describes the real module) is the
+    visible, trusted hypothesis. *)
+Theorem c04_state_census_sound : forall c, state_ok c = true ->
+  reads_not_written c = true /\ sc_writes c = [] /\ sc_write_sites c = [] /\ sc_class_writes c = [] /\ sc_decorators c = [] /\
+  sc_defaults c = [] /\ sc_globals c = [] /\ sc_reflective c = [] /\ sc_imports c = [].
+Proof. exact state_ok_parts. Qed.
+Theorem c04_history_independent : forall (V A B : Type) (run : A -> store V -> B * store V) (R W : list String.string),
+  footprint V A B run R W -> (forall n, In n R -> ~ In n W) ->
+  forall h a g, fst (run a (after V A B run h g)) = fst (run a g).
+Proof. exact history_independent. Qed.
+Theorem c04_state_ok_history_independent : forall (V A B : Type) (run : A -> store V -> B * store V) (c : state_census),
+  state_ok c = true -> footprint V A B run (sc_reads c) (sc_writes c) ->
+  forall h a g, fst (run a (after V A B run h g)) = fst (run a g).
+Proof. exact state_ok_history_independent. Qed.
+(** The rejected shape (seeded fault c04_8, a memo table keyed by the text alone): rejected by [state_ok], and a [run] with that
+    footprint does answer a later call with the fallback of the first one. *)
+Theorem c04_memo_by_text_refuted : memo_refuted_statement.
+Proof. exact memo_by_text_refuted. Qed.
+(** The whole property, for every call of a history (round 5): [c04_property] plus [state_ok] of the state census. *)
+Theorem c04_property_histories : forall atan2 tbl prog census methods sc,
+  atan2_spec atan2 -> table_ok tbl = true -> gj_prog_ok prog = true -> gj_total_ok prog = true -> census_ok census = true ->
+  methods_ok methods = true -> state_ok sc = true ->
+  c04_statement atan2 tbl prog census methods /\ c04_history_statement sc.
+Proof. exact c04_whole_property_histories. Qed.
+Example c04_state_hyp_satisfiable : state_ok constant_table_census = true.
+Proof. exact constant_table_accepted. Qed.
 
 (** Non-vacuity of the Gauss-Jordan theorems: a program equal to today's generated one is accepted and inverse() returns on
     the identity (which is a rotation). *)
